@@ -153,6 +153,20 @@ class Forest(object):
                 except Exception as e:
                     a.raised = e
                 return a
+            if k == 'set_parent':
+                # the parent attribute assigned directly: child.parent = other element / None
+                child = self.resolve(op['child'])
+                if child in self.msgs:
+                    return Applied('skipped')
+                parent = None if op.get('none') else self.resolve(op['parent'], True)
+                if parent is child or (parent is not None and self._is_ancestor(child, parent)):
+                    return Applied('skipped')
+                a = Applied('set_parent' + (':none' if parent is None else ''), parent if parent is not None else child.parent, [child] if parent is not None else [])
+                try:
+                    child.parent = parent
+                except Exception as e:
+                    a.raised = e
+                return a
             if k == 'list_setitem':
                 # children[i] = text / element: item assignment on the child list itself
                 parent = self.resolve(op['parent'], True)
@@ -608,6 +622,7 @@ def op_strategy():
         st.fixed_dictionaries({'op': st.just('assign'), 'parent': SHALLOW, 'child': st.integers(0, 9)}),
         st.fixed_dictionaries({'op': st.just('assign_idx'), 'parent': SHALLOW, 'child': st.integers(0, 9), 'i': st.integers(-1, 2)}),
         st.fixed_dictionaries({'op': st.just('reattach'), 'parent': SHALLOW, 'child': REF}),
+        st.fixed_dictionaries({'op': st.just('set_parent'), 'child': REF, 'parent': SHALLOW, 'none': st.sampled_from([False, False, False, True])}),
         st.fixed_dictionaries({'op': st.just('list_insert'), 'parent': SHALLOW, 'child': st.integers(0, 9), 'i': st.integers(-1, 4)}),
         st.fixed_dictionaries({'op': st.just('list_setitem'), 'parent': NEAR, 'i': st.integers(0, 5), 'what': st.sampled_from(['text', 'element'])}),
         st.fixed_dictionaries({'op': st.just('assign_existing'), 'parent': NEAR, 'child': st.fixed_dictionaries({'r': st.integers(0, 2), 'p': st.lists(st.integers(0, 3), min_size=1, max_size=2)}),
